@@ -31,6 +31,15 @@ def check(ctx):
     from .c14 import neighbourhood
     neighbourhood(ctx)
     edges.check_walks(ctx, categories={'derivation', 'incompat-scan', 'default'})
+    if ctx.tier == 'thorough':
+        # crash shapes program-wide (everything under optimization/ and graph/, not only the decode slice)
+        from ..rules import shapes
+        wide = [f for f in ctx.prog.all_functions() if f not in fns and
+                (f.module.name.startswith('adsg_core.optimization.') or f.module.name.startswith('adsg_core.graph.'))
+                and not f.module.name.endswith('sel_choice_enc.util')]
+        shapes.check_return_arity(ctx, wide, rule='A10a')
+        shapes.check_none_deref(ctx, wide, rule='A10b')
+        shapes.check_sentinel_truthiness(ctx, ctx.prog.all_functions())
     ctx.floor('A5', 2, 'result tuples of the two analyzers')
     ctx.floor('A17', 3, 'pattern look-ups by existence-map index in GraphProcessor')
     ctx.floor('A10a', 10, 'destructured calls on the decode slice')
